@@ -450,16 +450,40 @@ def canon_sessions(tap, ncv):
 def call_impl(binf, outf, scn, nproc, backend, append=False, nbatch=None, ns2add=None):
     import joblib
     from ibldsp import voltage
-    if scn.get("aspath") is False:               # str instead of pathlib.Path
-        binf, outf = str(binf), str(outf)
+    forms = scn.get("forms") or {}
     kw = dict(nprocesses=nproc, nbatch=nbatch or scn["nbatch"], ns2add=scn["ns2add"] if ns2add is None else ns2add,
               reject_channels=scn["reject"], k_filter=scn["k_filter"], append=append, wrot=make_wrot(scn))
+    h0 = None
+    if forms.get("out_default"):           # output_file=None: next to the (compressed) source, suffix .bin
+        outf = None
+    if forms.get("h_given"):               # the trace header passed explicitly
+        import spikeglx
+        _sr = spikeglx.Reader(binf)
+        kw["h"] = {k: (np.array(v, copy=True) if isinstance(v, np.ndarray) else v) for k, v in _sr.geometry.items()}
+        h0 = {k: (np.array(v, copy=True) if isinstance(v, np.ndarray) else v) for k, v in kw["h"].items()}
+        _sr.close()
+    if forms.get("butter"):
+        kw["butter_kwargs"] = dict(forms["butter"])
+    if forms.get("k_kwargs"):
+        kw["k_kwargs"] = json.loads(json.dumps(forms["k_kwargs"]))
+    if forms.get("nbatch_default"):
+        kw["nbatch"] = None                # NBATCH = 65536
+    if forms.get("P_default"):
+        kw["nprocesses"] = None            # int(cpu_count() - cpu_count() / 4)
+    if forms.get("qc_path"):
+        qc = Path(forms["qc_path"])
+        qc.mkdir(parents=True, exist_ok=True)
+        kw["output_qc_path"] = qc
+    if forms.get("reader_kwargs"):
+        kw["reader_kwargs"] = {"ignore_warnings": True, "meta_file": Path(binf).with_suffix(".meta")}
     if scn.get("nc_out") is not None:
         kw["nc_out"] = scn["nc_out"]
     if scn.get("dtype", "int16") != "int16":
         kw["dtype"] = getattr(np, scn["dtype"])
     if scn.get("compute_rms") is False:
         kw["compute_rms"] = False
+    if scn.get("aspath") is False:               # str instead of pathlib.Path
+        binf, outf = str(binf), (None if outf is None else str(outf))
     w0 = None if kw["wrot"] is None else np.array(kw["wrot"], copy=True)
     with warnings.catch_warnings():
         warnings.simplefilter("ignore")
@@ -470,6 +494,9 @@ def call_impl(binf, outf, scn, nproc, backend, append=False, nbatch=None, ns2add
         notes.append("returned %s instead of None" % type(ret).__name__)
     if w0 is not None and not np.array_equal(w0, np.asarray(kw["wrot"])):
         notes.append("the wrot argument was modified in place")
+    if h0 is not None and (set(h0) != set(kw["h"]) or any(
+            not np.array_equal(np.asarray(h0[k]), np.asarray(kw["h"][k])) for k in h0)):
+        notes.append("the h argument was modified in place")
     return notes
 
 
@@ -493,7 +520,7 @@ def observe(*a, **kw):
                 "error": "%s: %s" % (type(e).__name__, e), "trace": traceback.format_exc()[-1500:]}
 
 
-def plant_stale(outdir, scn, kind, ns2add):
+def plant_stale(outdir, scn, kind, ns2add, outf=None):
     """What a previous, different run may have left at the output location: an output file shorter /
     as long as / longer than the one about to be written (junk bytes), and stale QC files."""
     if kind is None:
@@ -503,7 +530,7 @@ def plant_stale(outdir, scn, kind, ns2add):
     new = (scn["ns"] + ns2add) * ncout * dtype.itemsize
     n = {"shorter": max(1, new // 3 + 5), "equal": new, "longer": new + 7 * ncout * dtype.itemsize + 1234 * ncout * 2}[kind]
     rng = np.random.default_rng(scn["seed"] + 99)
-    rng.integers(0, 255, n, dtype=np.uint8).tofile(outdir / "out.bin")
+    rng.integers(0, 255, n, dtype=np.uint8).tofile(outf or (outdir / "out.bin"))
     rng.standard_normal(scn["ncv"] * 977).astype(np.float32).tofile(outdir / "ap_rms.bin")
     rng.standard_normal(977).astype(np.float32).tofile(outdir / "ap_time.bin")
     np.save(outdir / "_iblqc_ephysSaturation.samples.npy", np.ones(scn["ns"] + 4321, dtype=bool))
@@ -513,11 +540,22 @@ def plant_stale(outdir, scn, kind, ns2add):
 
 def observe_inner(binf, outdir, scn, nproc, backend, append=False, nbatch=None, ns2add=None, stale=None):
     """One real run.  Returns dict with bytes / QC / (threading backend only) per-worker events."""
+    forms = scn.get("forms") or {}
+    if forms.get("out_default"):
+        outdir, outf = Path(binf).parent, Path(binf).with_suffix(".bin")
+    else:
+        outf = outdir / "out.bin"
     outdir.mkdir(parents=True, exist_ok=True)
+    qcdir = outdir
+    if forms.get("qc_path"):
+        scn = dict(scn, forms=dict(forms, qc_path=str(outdir / "qc_elsewhere")))
+        qcdir = outdir / "qc_elsewhere"
     if not append:
-        plant_stale(outdir, scn, stale, scn["ns2add"] if ns2add is None else ns2add)
+        plant_stale(outdir, scn, stale, scn["ns2add"] if ns2add is None else ns2add, outf)
     fp0 = fingerprint(binf)
-    outf = outdir / "out.bin"
+    for name in ("ap_rms.bin", "ap_time.bin", outf.name, "_iblqc_ephysSaturation.samples.npy",
+                 "_iblqc_ephysTimeRmsAP.rms.npy", "_iblqc_ephysTimeRmsAP.timestamps.npy"):
+        fp0.pop(name, None)                  # outputs living next to the source (output_file=None)
     watched = {outf: "out", outdir / "ap_rms.bin": "rms", outdir / "ap_time.bin": "time",
                outdir / "_iblqc_ephysSaturation.samples.npy": "sat"}
     pre = {k: (Path(p).stat().st_size if Path(p).exists() else 0) for p, k in watched.items() if k != "sat"}
@@ -536,7 +574,7 @@ def observe_inner(binf, outdir, scn, nproc, backend, append=False, nbatch=None, 
         return res
     res["wall"] = time.time() - t0
     fp1 = fingerprint(binf)
-    res["src_changed"] = sorted(k for k in set(fp0) | set(fp1) if fp0.get(k) != fp1.get(k))
+    res["src_changed"] = sorted(k for k in fp0 if fp0.get(k) != fp1.get(k))
     res["raw"] = np.fromfile(outf, dtype=np.uint8)
     res["size"] = {k: (Path(p).stat().st_size if Path(p).exists() else -1) for p, k in watched.items() if k != "sat"}
     if scn.get("compute_rms") is False:
@@ -545,9 +583,9 @@ def observe_inner(binf, outdir, scn, nproc, backend, append=False, nbatch=None, 
         res["rms_files"] = sorted(f.name for f in outdir.iterdir()
                                   if f.name.startswith(("ap_rms", "ap_time", "_iblqc_ephysTimeRmsAP")))
         return res
-    res["sat"] = np.load(outdir / "_iblqc_ephysSaturation.samples.npy")
-    res["rms"] = np.load(outdir / "_iblqc_ephysTimeRmsAP.rms.npy")
-    res["times"] = np.load(outdir / "_iblqc_ephysTimeRmsAP.timestamps.npy")
+    res["sat"] = np.load(qcdir / "_iblqc_ephysSaturation.samples.npy")
+    res["rms"] = np.load(qcdir / "_iblqc_ephysTimeRmsAP.rms.npy")
+    res["times"] = np.load(qcdir / "_iblqc_ephysTimeRmsAP.timestamps.npy")
     return res
 
 
@@ -578,8 +616,18 @@ def _serve(conn):
             conn.send(res)
         except BaseException as e:    # noqa: unpicklable result
             conn.send(("exc", "result could not be returned: %r" % (e,), ""))
-    # normal return: multiprocessing's bootstrap (and coverage.py's hook in it, when a coverage audit is
-    # running) finish their bookkeeping and then _exit the child
+    # leave without multiprocessing's exit handler (it would wait for idle loky workers); when a coverage
+    # audit is running (tools/cov.py) save this process's data first
+    if os.environ.get("COVERAGE_PROCESS_START"):
+        try:
+            import coverage
+            cov = coverage.Coverage.current()
+            if cov is not None:
+                cov.stop()
+                cov.save()
+        except Exception:
+            pass
+    os._exit(0)
 
 
 class Runner:
@@ -697,7 +745,10 @@ def reference(binf, scn, nbatch=None, t0=0.0):
     with warnings.catch_warnings():
         warnings.simplefilter("ignore")
         labels = voltage.detect_bad_channels_cbin(sr) if scn["reject"] else None
-    butter_kwargs, k_kwargs, spatial_fcn = voltage._get_destripe_parameters(sr.fs, None, None, scn["k_filter"])
+    forms = scn.get("forms") or {}
+    butter_kwargs, k_kwargs, spatial_fcn = voltage._get_destripe_parameters(
+        sr.fs, dict(forms["butter"]) if forms.get("butter") else None,
+        json.loads(json.dumps(forms["k_kwargs"])) if forms.get("k_kwargs") else None, scn["k_filter"])
     sos = scipy.signal.butter(**butter_kwargs, output="sos")
     taper = np.r_[0, scipy.signal.windows.cosine((T - 1) * 2), 0]
     win = pyfftw.empty_aligned((ncv, nb), dtype="float32")
@@ -883,7 +934,7 @@ def gen_scenarios(ctx):
         d = {"ns": int(ns), "nbatch": int(nb), "ps": list(ps), "ncv": 8, "ns2add": 0, "reject": False,
              "k_filter": False, "wrot": None, "nc_out": None, "dtype": "int16", "sat": True,
              "seed": rng.randrange(1 << 30), "append": None, "loky": [], "src": "bin", "aspath": True,
-             "gains": None, "slow": False}
+             "gains": None, "slow": False, "forms": None}
         d.update(kw)
         scns.append(d)
         return d
@@ -905,6 +956,17 @@ def gen_scenarios(ctx):
     m0 = rng.choice([1, 2])
     scn(4096 + m0 * 2048, 4096, [1, rng.randrange(5, 9), 16], ns2add=rng.choice([2, 3]),
         append={"P": 7, "nbatch": 4096})
+    # --- every public parameter in a non-default form at least once ---
+    import joblib
+    pdef = int(joblib.cpu_count() - joblib.cpu_count() / 4)
+    scn(rng.randrange(5000, 9000), 3000, [1, 3], src="cbin", forms={"out_default": True}, ns2add=rng.choice([0, 2]))
+    scn(rng.randrange(5000, 9000), rng.choice([2304, 3000]), [1, 2], k_filter=True,
+        forms={"h_given": True, "butter": {"N": 2, "Wn": 500 / 30000 * 2, "btype": "highpass"},
+               "k_kwargs": {"ntr_pad": 3, "ntr_tap": 0, "lagc": 300,
+                            "butter_kwargs": {"N": 3, "Wn": 0.02, "btype": "highpass"}}})
+    scn(rng.randrange(7000, 12000), 65536, [max(1, pdef)], forms={"nbatch_default": True, "P_default": True},
+        ns2add=rng.choice([0, 4]))
+    scn(rng.randrange(5000, 9000), 3000, [2], forms={"qc_path": True, "reader_kwargs": True}, wrot="perm")
     # --- per-bank AP gains (imroTbl) and slow artefacts that rail only the high-gain channels ---
     gk = ["halves", "halves_rev", "mixed"]
     rng.shuffle(gk)
@@ -1093,8 +1155,7 @@ def check_run(ctx, scn, obs, data, ref, ref_prev, tags_base, cases, stats, nbatc
         if obs["n_idle_workers"] < 0:
             ctx.disagree("more writing sessions than workers", inp, tags)
             obs["n_idle_workers"] = 0
-        roff = obs["pre"]["rms"] if obs["append"] else 0
-        toff = obs["pre"]["time"] if obs["append"] else 0
+        roff, toff = obs["pre"]["rms"], obs["pre"]["time"]     # what was there; the model decides what is kept
         # does the first sync column differ from the source although the run whitens (wrot given)?
         obs["sync_scaled"] = int(scn.get("wrot") is not None and ncout == ncv + 1 and
                                  not np.array_equal(rows[:ns, -1].astype(np.int64), data[:, -1].astype(np.int64)))
@@ -1440,7 +1501,7 @@ def replay_inner(ctx, data):
     scn = {k: inp[k] for k in ("ns", "nbatch", "ncv", "ns2add", "reject", "k_filter", "wrot", "nc_out", "dtype",
                                "sat", "seed", "append")}
     scn["src"], scn["aspath"] = inp.get("src", "bin"), inp.get("aspath", True)
-    scn["gains"], scn["slow"] = inp.get("gains"), inp.get("slow", False)
+    scn["gains"], scn["slow"], scn["forms"] = inp.get("gains"), inp.get("slow", False), inp.get("forms")
     if "stale" in inp:
         scn["stale_force"] = inp["stale"]
     scn["ps"] = sorted({1, inp.get("P", 1), inp.get("P_ref", 1)})
